@@ -20,6 +20,8 @@ import (
 	"sync"
 	"sync/atomic"
 	"time"
+
+	"verif/hooks"
 )
 
 // LibPrefix is the import path prefix of the library under test; a panic whose
@@ -385,6 +387,11 @@ func workerMain(m *Monitor, tier string, seed int64, shard, n int, dir string) {
 		os.Exit(3)
 	}
 	w.journal = j
+	if hooks.Available {
+		hooks.SetReport(func(kind, msg string) {
+			w.Violate("hook-"+kind, map[string]string{"kind": kind}, "internal invariant failed at an instrumentation point: %s", msg)
+		})
+	}
 	func() {
 		defer func() {
 			if r := recover(); r != nil {
@@ -394,6 +401,12 @@ func workerMain(m *Monitor, tier string, seed int64, shard, n int, dir string) {
 		}()
 		m.Gen(w)
 	}()
+	for k, v := range hooks.Snapshot() {
+		w.counters["hook_"+k] += v
+	}
+	if hooks.Available {
+		w.counters["hooks_available"] = 1
+	}
 	j.Write([]byte("DONE\n"))
 	j.Close()
 	writeJSON(filepath.Join(dir, fmt.Sprintf("w%d.report.json", shard)), w.report())
